@@ -1,4 +1,20 @@
-"""C17 — Ancestry queries on trees are exact (LowestCommonAncestor, RangeMinQuery)."""
+"""C17 — Ancestry queries on trees are exact (LowestCommonAncestor, RangeMinQuery).
+
+Two ties between the Lean theorems and the source:
+1. correspondence (this module): the hand-written model lean/SRVerif/Model/Lca.lean is compared with the
+   running code on the bounded-exhaustive / random inputs described in RULE (trees AND arrays);
+2. translator tie, for utils/range_min_query.py only (harness/translate_py.py, run by
+   harness/common.py:lean_build before this module): `_ilog2`, `RangeMinQuery.__init__` and
+   `RangeMinQuery.__call__` are translated mechanically into lean/SRVerif/Generated/RmqPy.lean on every run and
+   PROVED equal to the model (Generated/RmqPyEquiv.lean, proofs Proofs/RmqPyEquiv.lean); Properties/C17Code.lean
+   restates the range-minimum theorems for the generated functions.  Evidence: "translator_tie": "ok (sha256 ...)".
+   * translator cannot parse / generated definitions ill-typed / proof script stale while Lean finds no input in
+     the model's domain distinguishing generated functions and model  ->  "unavailable: <reason>", NO alarm:
+     C17Code is left out of this run and tie 1 runs with the thorough budget (ctx.deep);
+   * Lean exhibits an input on which they differ  ->  gen_*_eq_model is a failed proof obligation: deep search,
+     then VIOLATION (with the failing input, or no-failing-input-found).
+   utils/trees.py (`_euler_tour`, `LowestCommonAncestor`) is tied by 1 only.
+"""
 import itertools
 from collections import deque
 
@@ -25,11 +41,20 @@ TRUSTED = [
     "LowestCommonAncestor.__call__ and derived queries; exceptions as Except PyErr)",
     "a TreeNode is represented by its path of child indices; `==`/hash of TreeNode is object identity",
     "`_ilog2` (int.bit_length() - 1) is modelled by fuelled halving, proved to be the integral log2",
+    "translator tie (theorems C17_code_* of Properties/C17Code.lean, only when translator_tie is ok): "
+    "harness/translate_py.py (Python ast -> Lean normal form; a class as a structure of the attributes stored by "
+    "__init__; Python ints as Int with wrap-around indexing; item assignment as checked List.set; `min` through an "
+    "explicit, possibly raising `lt_` = Element.__lt__; lists with value semantics, programs that could alias a "
+    "list are rejected) and the prelude lean/SRVerif/Model/PyRt.lean, lean/SRVerif/Model/RmqPyBridge.lean "
+    "(translation of exception names); for these theorems the hand-written RangeMinQuery model is NOT trusted "
+    "(the generated functions are proved equal to it)",
 ]
 ASSUMPTIONS = [
     "the tree is not mutated after LowestCommonAncestor(tree); nodes passed belong to the tree",
     "array elements are totally ordered (theorem: any linear order; tie: ints and int pairs)",
-    "negative start/stop (Python negative indexing) are outside the model",
+    "negative start/stop (Python negative indexing) are outside the model (the GENERATED __call__ does describe "
+    "them, wrapping around as Python does, but no theorem is stated about them)",
+    "array elements are immutable and their `<` has no side effect (translator tie)",
 ]
 OPEN = []
 
